@@ -10,6 +10,7 @@ from . import common
 from .common import Rng, Result, log
 
 PID = "C04"
+PAIR_ID = 1000000
 
 
 def consts():
@@ -337,6 +338,30 @@ def main(tier, seed):
     eps = "0,2"
     batches = [3, 17, 40] if tier == "quick" else [2, 3, 4, 5, 8, 9, 16, 17, 33, 64, 120]
     name_of = {i: n for (i, n, d) in items}
+    # pair mixes: for every ordered pair (A, B) of single-algorithm families one batch of PAIR_A jobs of A with PAIR_B
+    # jobs of B submitted while most of A's lanes are occupied — two different out-of-order managers of the same
+    # IMB_MGR hold pending jobs at the same time (per-manager state blocks must not overlap or share scratch);
+    # the ids of the reused items are offset by a multiple of PAIR_ID so that every occurrence has its own result
+    PAIR_A, PAIR_B = 16, 2
+    base_names = [n for (n, b) in T if "+" not in n]
+    pair_files = []
+    seq = 0
+    for a in base_names:
+        lines = []
+        for bn in base_names:
+            if bn == a:
+                continue
+            seq += 1
+            ia = [by_name[a][rng.below(per)] for _ in range(PAIR_A)]
+            ib = [by_name[bn][rng.below(per)] for _ in range(PAIR_B)]
+            order = ia[:PAIR_A - 3] + ib[:1] + ia[PAIR_A - 3:] + ib[1:]
+            for k, (i, n_, d) in enumerate(order):
+                lines.append(((seq * 32 + k) * PAIR_ID + i, n_, d))
+        pth = os.path.join(workdir, "pair_%s.txt" % a)
+        with open(pth, "w") as f:
+            for (i, n_, d) in lines:
+                f.write(item_line(i, d) + "\n")
+        pair_files.append((pth, lines))
     # alone runs
     allf = os.path.join(workdir, "all.txt")
     with open(allf, "w") as f:
@@ -348,6 +373,8 @@ def main(tier, seed):
     for (p, its) in files:
         for b in batches:
             jobs.append((p, b))
+    for (p, its) in pair_files:
+        jobs.append((p, PAIR_A + PAIR_B))
     together = []
     with cf.ThreadPoolExecutor(max_workers=common.NCPU) as ex:
         futs = {ex.submit(run_k1, k1, p, "all", eps, b): (p, b) for (p, b) in jobs}
@@ -360,12 +387,14 @@ def main(tier, seed):
         if timed_out:
             diffs.append(dict(kind="hang", file=p, batch=b))
         for key, val in r.items():
+            rawid = key[0]
+            key = (key[0] % PAIR_ID, key[1], key[2])
             a = alone.get(key)
             if a is None or a == "skip" or val == "skip":
                 continue
             ncmp += 1
             if a != val:
-                diffs.append(dict(kind="differs", id=key[0], var=key[1], ep=key[2], batch=b, file=p, alone=a[:300], together=val[:300],
+                diffs.append(dict(kind="differs", id=key[0], rawid=rawid, var=key[1], ep=key[2], batch=b, file=p, alone=a[:300], together=val[:300],
                                   alg=name_of[key[0]]))
     for key, a in alone.items():
         if a.startswith("status=") and not a.startswith("status=3"):
@@ -386,7 +415,7 @@ def main(tier, seed):
         unexplained.append(d)
     for l in hit:
         res.known.append(l.split(" ", 1)[1] if " " in l else l)
-    nontrivial = len(set((k[0]) for (pb, (r, _)) in together for k, v in r.items() if v != "skip"))
+    nontrivial = len(set((k[0] % PAIR_ID) for (pb, (r, _)) in together for k, v in r.items() if v != "skip"))
     res.coverage.update({
         "evaluations": ncmp, "distinct_nontrivial": nontrivial,
         "rule": "one evaluation = one (work item, variant, entry point, batch size, order) result compared with the same item run alone; "
@@ -407,7 +436,16 @@ def main(tier, seed):
     for g, d in list(groups.items())[:6]:
         rp = dict(d); rp.update(property=PID, what="result of a job changes when co-scheduled with other jobs", seed=seed)
         if d["kind"] == "differs":
-            rp["case_file_lines"] = open(d["file"]).read().splitlines()[:40]
+            ls = open(d["file"]).read().splitlines()
+            if os.path.basename(d["file"]).startswith("pair_"):
+                # the batch of PAIR_A + PAIR_B lines that contains the job
+                n = PAIR_A + PAIR_B
+                at = [k for k, l in enumerate(ls) if l.startswith("id=%d " % d["rawid"])]
+                k0 = (at[0] // n) * n if at else 0
+                rp["case_file_lines"] = ls[k0:k0 + n]
+                rp["batch"] = n
+            else:
+                rp["case_file_lines"] = ls[:40]
         res.violation(rp, name="%s_%s" % (g[0], g[1]))
     if (broken_proof or sched_bad) and not groups:
         res.violation(dict(property=PID, broken_obligations=pres["failed"], log=pres["log"][-2000:] if broken_proof else "",
